@@ -110,7 +110,7 @@ def run_jobs(mod_name, tier, jobs, kf_active, log):
             j = pending.pop(0)
             out = os.path.join(tmp, 'r%d.json' % len(results) + str(len(running)) + '_' + str(time.time_ns()))
             p = subprocess.Popen([PY_SYM, '-m', 'symex.worker', mod_name, tier, j.id, out],
-                                 cwd=HERE, env=env, stdout=subprocess.PIPE, stderr=subprocess.STDOUT)
+                                 cwd=HERE, env=dict(env, VERIF_JOB_BUDGET=str(j.budget)), stdout=subprocess.PIPE, stderr=subprocess.STDOUT)
             running[j.id] = (p, out, time.time(), j)
         time.sleep(0.2)
         for jid in list(running):
@@ -237,14 +237,22 @@ def main():
         keep = set(a.only.split(','))
         jobs = [j for j in jobs if j.id in keep]
     # the thorough tier is sized by total wall time: if the budgets of all cells add up to more
-    # than VERIF_THOROUGH_CAP_MIN minutes on this machine, every budget is scaled down (cells
-    # that do not close their path tree within it are reported inconclusive, never as held)
+    # than VERIF_THOROUGH_CAP_MIN minutes on this machine, the cells declared bug-hunting only
+    # are scaled down first, then (if still too much) every cell; a cell that does not close its
+    # path tree within its budget is reported inconclusive, never as held
     if a.tier == 'thorough' and jobs and 'VERIF_BUDGET_SCALE' not in os.environ:
         cap = float(os.environ.get('VERIF_THOROUGH_CAP_MIN', '25')) * 60 * NPROC
         total = sum(j.budget for j in jobs)
         if total > cap:
-            os.environ['VERIF_BUDGET_SCALE'] = '%.4f' % (cap / total)
-            log('  thorough tier: budgets scaled by %s (sum of cell budgets %.0f s, cap %.0f s)' % (os.environ['VERIF_BUDGET_SCALE'], total, cap))
+            exh = sum(j.budget for j in jobs if j.exhaust)
+            rest = total - exh
+            if exh <= 0.7 * cap and rest > 0:
+                f_exh, f_rest = 1.0, max(0.02, (cap - exh) / rest)
+            else:
+                f_exh = f_rest = cap / total
+            for j in jobs:
+                j.budget = max(20.0, j.budget * (f_exh if j.exhaust else f_rest))
+            log('  thorough tier: cell budgets scaled (exhaustive cells x%.2f, bug-hunting cells x%.2f; sum was %.0f s, cap %.0f s)' % (f_exh, f_rest, total, cap))
     results = run_jobs(mod_name, a.tier, jobs, kf_active, log) if not harness_error else {}
     replayed = 0
     for jid, r in sorted(results.items()):
